@@ -152,6 +152,35 @@ def run(ctx):
             model_batch.append((case, wb, ins, outs, early, rounds, per_round, after, full_ops))
     ctx.extra['model_trim_cases'] = len(model_batch)
     correspondence(ctx, model_batch, refused_batch)
+    # ---- inputs given as a range (the property's quantifier includes ranges as inputs)
+    for k in range(ctx.n(30, 300)):
+        wb = wbgen.WB()
+        a1 = wb.add_input(rng.choice([1, 2, 3]))
+        a2 = wb.add_input(rng.choice([2, 5, 7]))
+        f3 = wb.add_formula('=A1+10', [a1], [3, 0, [0, 0], [1, 10]])
+        ri = wb.get_range(1, 2)
+        f4 = wb.add_formula('=SUM(A1:A2)+A3' if rng.random() < 0.7 else '=SUM(A1:A2)*2',
+                            [ri, f3] if True else [ri], [3, 0, [0, 0], [0, 1]])
+        if wb.nodes[f4]['text'].endswith('*2'):
+            wb.nodes[f4]['deps'] = [ri]
+        desc = [(x['addr'], x.get('value'), x.get('text')) for x in wb.nodes]
+        case = dict(call='trim-range-input', workbook=desc, args=[['S!A1:A2'], ['S!A4']])
+        ctx.count(('range-input', k), kind='trim-range-input')
+        try:
+            full = ExcelCompiler(excel=wb.to_openpyxl())
+            trimmed = ExcelCompiler(excel=wb.to_openpyxl())
+            trimmed.trim_graph(['S!A1:A2'], ['S!A4'])
+            vals = (rng.choice([5, 6]), rng.choice([7, 8]))
+            for comp in (full, trimmed):
+                if 'S!A1:A2' not in comp.cell_map:
+                    comp.evaluate('S!A4')
+                comp.set_value('S!A1:A2', vals)
+            a, b = canon(full.evaluate('S!A4')), canon(trimmed.evaluate('S!A4'))
+            if a != b:
+                ctx.violation(dict(case, assign=list(vals)), "outputs of the trimmed model differ from the untrimmed model",
+                              impl=b, expected=a)
+        except Exception as exc:      # noqa: BLE001
+            ctx.violation(case, f"trim with a range input raises {type(exc).__name__}: {exc}"[:200])
     shutil.rmtree(ctx.work, ignore_errors=True)
 
 
